@@ -540,7 +540,7 @@ func checkUnfoldGuards(c *Ctx, f *FC, nr map[string]bool) {
 		}
 		setParam := -1
 		for i, p := range fn.Params {
-			if n, ok := p.Type().(*types.Named); ok && n.Obj().Name() == "SSet" {
+			if n, ok := p.Type().(*types.Named); ok && (n.Obj().Name() == "SSet" || n.Obj().Name() == "TMemo") {
 				setParam = i
 			}
 		}
@@ -602,6 +602,14 @@ func checkUnfoldGuards(c *Ctx, f *FC, nr map[string]bool) {
 				return false
 			}
 			app, ok := isCallTo(iff.Cond, f.Path+".SSetHasKey")
+			putName := ".SSetPut"
+			if !ok {
+				// memo form: if #1(TMemoTryFind(m, k)) then … else seq[TMemoPut(m, k, placeholder); …]
+				if pj, isProj := iff.Cond.(*ir.Proj); isProj && pj.I == 1 {
+					app, ok = isCallTo(pj.X, f.Path+".TMemoTryFind")
+					putName = ".TMemoPut"
+				}
+			}
 			if !ok || len(app.Args) != 2 {
 				return false
 			}
@@ -616,8 +624,8 @@ func checkUnfoldGuards(c *Ctx, f *FC, nr map[string]bool) {
 			if !ok || len(sq.Effs) == 0 {
 				return false
 			}
-			put, ok := isCallTo(sq.Effs[0], f.Path+".SSetPut")
-			return ok && len(put.Args) == 2 && ir.String(f.Path, put.Args[1]) == key
+			put, ok := isCallTo(sq.Effs[0], f.Path+putName)
+			return ok && len(put.Args) >= 2 && ir.String(f.Path, put.Args[1]) == key
 		}
 		type armInfo struct {
 			name             string
@@ -641,7 +649,7 @@ func checkUnfoldGuards(c *Ctx, f *FC, nr map[string]bool) {
 				continue
 			}
 			if a.guarded {
-				r.OK("C16.e1", fn.Name, a.name, pos, "arm "+a.name+" unfolds a named type under the visited-set guard (SSetHasKey / SSetPut before descending)")
+				r.OK("C16.e1", fn.Name, a.name, pos, "arm "+a.name+" unfolds a named type under the visited-set / memo guard (membership test, entry stored before descending)")
 			} else {
 				r.Bad("C16.e1", fn.Name, a.name, pos, "arm "+a.name+" unfolds a named type by name and re-enters the traversal without the visited-set guard its sibling arm uses: a self-referential definition recurses until the Go stack is exhausted (fatal error, not a diagnostic)")
 			}
